@@ -427,10 +427,45 @@ func genC14(r *Rng, tier string, emit func(Case)) {
 				ops = append(ops, "a:"+hx(it))
 			}
 		}
+		// keep the unary runs short (the property bounds M/2^P): simulate the latch-free part of the chain and, if the
+		// final parameters would give quotients above 2^10, finish the chain with p:32
+		{
+			cp, cm := uint64(0), uint64(0)
+			for _, op := range ops {
+				var v uint64
+				if len(op) > 2 {
+					v = atouSafe(op[2:])
+				}
+				switch op[0] {
+				case 'p':
+					if v <= 32 {
+						cp = v
+					}
+				case 'm':
+					if v <= 4294967295 {
+						cm = v
+					}
+				}
+			}
+			if cp > 0 && cm>>cp > 1024 {
+				ops = append(ops, "p:32")
+			}
+		}
 		e("bld", "chain", joinOr(ops, ";"))
 		// block filters
 		g := &genCtx{r: r}
 		txs := g.genBlock(r.Intn(8), r.Intn(3))
 		e("basic", "block", fmtTxs(txs), hx(r.Bytes(32)))
 	}
+}
+
+func atouSafe(s string) uint64 {
+	var v uint64
+	for _, c := range []byte(s) {
+		if c < '0' || c > '9' {
+			return 0
+		}
+		v = v*10 + uint64(c-'0')
+	}
+	return v
 }
